@@ -240,9 +240,11 @@ type item struct {
 	goKey string
 	hash  string
 	explicit bool
+	extern string // Coq module (under Geo.) holding a hand-written definition of this name
 }
 
 type gen struct {
+	externs map[string]string // goKey -> Coq module, from "extern <goKey> <Module>" lines
 	w       *world
 	items   map[string]*item
 	order   []string
@@ -992,10 +994,28 @@ func (c *fctx) call(x *ast.CallExpr) string {
 		args = append(args, recv)
 	}
 	if sig.Variadic() {
-		fail("variadic call")
-	}
-	for i, a := range x.Args {
-		args = append(args, c.exprAs(a, sig.Params().At(i).Type()))
+		// f(a, b, xs...) is not modelled; f(a, b, x1, x2) packs the trailing arguments
+		// into the slice parameter, which is a Coq list.
+		if x.Ellipsis.IsValid() {
+			fail("variadic call with ...")
+		}
+		nfix := sig.Params().Len() - 1
+		if len(x.Args) < nfix {
+			fail("variadic call with a tuple argument")
+		}
+		for i := 0; i < nfix; i++ {
+			args = append(args, c.exprAs(x.Args[i], sig.Params().At(i).Type()))
+		}
+		elemT := sig.Params().At(nfix).Type().(*types.Slice).Elem()
+		rest := []string{}
+		for _, a := range x.Args[nfix:] {
+			rest = append(rest, c.exprAs(a, elemT))
+		}
+		args = append(args, "["+strings.Join(rest, "; ")+"]")
+	} else {
+		for i, a := range x.Args {
+			args = append(args, c.exprAs(a, sig.Params().At(i).Type()))
+		}
 	}
 	if fn.Pkg() != nil && fn.Pkg().Path() == "math" {
 		name, ok := mathFuncs[fn.Name()]
@@ -1688,6 +1708,13 @@ func (g *gen) needFunc(fn *types.Func, explicit bool) string {
 	}
 	it := &item{kind: kFunc, name: name, deps: map[string]bool{}, goKey: funcKey(fn), explicit: explicit}
 	g.items[name] = it
+	if mod, ok := g.externs[it.goKey]; ok {
+		// hand-modelled in Model/: callers are translated against that definition
+		it.extern = mod
+		it.explicit = false
+		g.notes = append(g.notes, "EXTERN "+it.goKey+" -> "+mod+"."+name)
+		return name
+	}
 	decl := g.w.funcDecl[fn]
 	p := g.w.funcPkg[fn]
 	func() {
@@ -1760,6 +1787,8 @@ type cfgEntry struct {
 	pat  string
 }
 
+var cfgExterns = map[string]string{}
+
 func readCfg(path string) (units []string, entries []cfgEntry) {
 	var data []byte
 	if st, err := os.Stat(path); err == nil && st.IsDir() {
@@ -1794,6 +1823,15 @@ func readCfg(path string) (units []string, entries []cfgEntry) {
 			units = append(units, cur)
 			continue
 		}
+		if strings.HasPrefix(ln, "extern ") {
+			// extern <pkg.Func | pkg.Type.Method> <Coq module>: the function is hand-modelled there under its usual Coq name
+			f := strings.Fields(ln)
+			if len(f) != 3 {
+				fatal("bad extern line: " + ln)
+			}
+			cfgExterns[f[1]] = f[2]
+			continue
+		}
 		entries = append(entries, cfgEntry{cur, ln})
 	}
 	return
@@ -1804,6 +1842,7 @@ func main() {
 	w := loadWorld()
 	g := &gen{w: w, items: map[string]*item{}, unitOf: map[string]string{}}
 	units, entries := readCfg(*cfgF)
+	g.externs = cfgExterns
 
 	// resolve entries to functions, in configuration order
 	type want struct {
@@ -1938,6 +1977,9 @@ func main() {
 				if _, configured := unitOfKey[di.goKey]; configured {
 					continue
 				}
+				if di.extern != "" {
+					continue
+				}
 				if di.unit == "" || better(it.unit, di.unit, pkgOfKey(di.goKey)) {
 					di.unit = it.unit
 					changed = true
@@ -2016,6 +2058,9 @@ func main() {
 	}{Notes: g.notes}
 	for _, n := range names {
 		it := g.items[n]
+		if it.extern != "" {
+			continue // listed in Notes as EXTERN
+		}
 		ri := repItem{it.goKey, it.name, it.unit, it.hash, it.err, it.explicit}
 		if good[n] {
 			rep.Translated = append(rep.Translated, ri)
@@ -2039,11 +2084,14 @@ func main() {
 			fmt.Fprintf(&b, "(* GENERATED by harness/cmd/extract from %s — do not edit. *)\n", *repo)
 			b.WriteString("From Coq Require Import ZArith List Bool Floats.\nFrom Geo Require Import Base.GoPrim.\nImport ListNotations.\n")
 			needUnits := map[string]bool{}
+			needMods := map[string]bool{}
 			for _, n := range g.order {
 				it := g.items[n]
 				if it.unit == u {
 					for d := range it.deps {
-						if du := g.items[d].unit; du != u {
+						if m := g.items[d].extern; m != "" {
+							needMods[m] = true
+						} else if du := g.items[d].unit; du != u {
 							needUnits[du] = true
 						}
 					}
@@ -2053,6 +2101,14 @@ func main() {
 				if needUnits[pu] {
 					fmt.Fprintf(&b, "From Geo Require Export Gen.%s.\n", pu)
 				}
+			}
+			mods := []string{}
+			for m := range needMods {
+				mods = append(mods, m)
+			}
+			sort.Strings(mods)
+			for _, m := range mods {
+				fmt.Fprintf(&b, "From Geo Require Export %s.\n", m)
 			}
 			b.WriteString("Local Open Scope bool_scope.\n\n")
 			for _, n := range g.order {
